@@ -57,6 +57,7 @@ type K struct {
 	Invariant     func()
 	lastFaultStep int
 	inInv         bool
+	draining      bool
 	cleanups      []func()
 	// PostRun checks run after the bubble has ended, on the real clock (e.g. porcupine)
 	PostRun  []func() *Violation
@@ -72,19 +73,37 @@ func (k *K) Failf(sig, f string, a ...interface{}) {
 	panic(violationPanic{Violation{Signature: sig, Detail: fmt.Sprintf(f, a...)}})
 }
 
-// Wait blocks until every SUT goroutine is durably blocked, then runs the invariant.
+// Wait blocks until every SUT goroutine is durably blocked, then runs the invariant. If
+// goroutines stalled by the kernel (soft parks) remain, the kernel first goes on taking
+// actions until they have all sat out their quanta: a stall spans kernel actions (that is
+// its point), but whoever calls Wait - scenarios, helpers, oracles - sees a world in which
+// no goroutine sits between two of its statements.
 func (k *K) Wait() {
-	kernelBlock(synctest.Wait)
-	// stalled goroutines (soft parks) sit out a drawn number of kernel quanta, then go on
-	for k.W.softTick() {
-		kernelBlock(synctest.Wait)
+	k.waitRaw()
+	if !k.draining {
+		k.draining = true
+		for n := 0; n < 200 && k.softPending() > 0; n++ {
+			k.stepOnce()
+			k.waitRaw()
+		}
+		if k.softPending() > 0 {
+			k.releaseSoft()
+			k.waitRaw()
+		}
+		k.draining = false
 	}
-	// (not while a goroutine is stalled between two of its steps: an operation that has not
-	// returned may have reached the log and not yet the view)
 	if k.Invariant != nil && !k.inInv && k.softPending() == 0 {
 		k.inInv = true
 		k.Invariant()
 		k.inInv = false
+	}
+}
+
+// waitRaw: quiescence, and one quantum counted down for every stalled goroutine.
+func (k *K) waitRaw() {
+	kernelBlock(synctest.Wait)
+	for k.W.softTick() {
+		kernelBlock(synctest.Wait)
 	}
 }
 
@@ -128,6 +147,16 @@ func (k *K) smallQuantum() time.Duration {
 // It returns the category name ("" if nothing but time could happen).
 func (k *K) Step() string {
 	k.Wait()
+	return k.act()
+}
+
+// stepOnce is Step without draining stalls first (used by the drain itself).
+func (k *K) stepOnce() string {
+	k.waitRaw()
+	return k.act()
+}
+
+func (k *K) act() string {
 	k.bump()
 	w := k.W
 	w.mu.Lock()
